@@ -1,7 +1,11 @@
 """C10 — bundle ports flatten to the documented names, directions and visibility (DESIGN.md 6.3).
 
 Case language (also the input of harness/impl/c10.py):
-  defs   : list of bundle definitions {name, style, rstyle, roles, sigs:[{n,w,k,src,dest}], subs:[{n,cf,fc,role,d}]}, d < own index
+  defs   : list of bundle definitions {name, style, rstyle, roles, sigs:[{n,w,k,src,dest}], subs:[{n,cf,fc,role,d}], ops?}, d < own index
+           ops (optional) = the construction HISTORY of the definition, in order, names may be re-used:
+           [{t:"sig",via?,n,w,k,src,dest} | {t:"sub",via?,n,cf,fc,role,d} | {t:"junk",via?,n}]  (via = add | addn | set);
+           sigs/subs are then the FINAL members as this harness reads the history (finalize); Coq recomputes them from the
+           history with Model/C10Build.v and answers 3 when the two readings differ
   top    : index of the definition of the bundle instance under test
   child  : {n, port, cf, fc, role, extra}      instance in the module under test M (extra = other signal names of M)
   probe  : connect a one-port instance to every member reference (gives member path -> flattened signal)
@@ -12,7 +16,7 @@ from . import core
 from .core import cz, clist, cstr, cbool
 
 IMPORTS = ("From Coq Require Import String.\n"
-           "Require Import Hdl21.Base.PyInt Hdl21.Spec.BundleSpec Hdl21.Model.BundleFlat Hdl21.Corr.C03 Hdl21.Corr.C10.\n"
+           "Require Import Hdl21.Base.PyInt Hdl21.Spec.BundleSpec Hdl21.Model.BundleFlat Hdl21.Model.C10Build Hdl21.Corr.C03 Hdl21.Corr.C10.\n"
            "Open Scope string_scope.\nOpen Scope list_scope.")
 
 ROLES = ["HOST", "DEVICE", "OTHER"]
@@ -36,6 +40,71 @@ def c_tree(defs, idx, inst):
     subs = clist([c_tree(defs, s["d"], s) for s in d["subs"]])
     return (f"(BT {cstr(inst['n'])} {cbool(bool(inst.get('cf')))} {int(inst.get('fc', 0))} {c_ostr(inst.get('role'))} "
             f"{clist([c_leaf(l) for l in d['sigs']])} {subs})")
+
+
+def eff_class(d):
+    """the construction style the driver really uses: roles written in the body force a class body"""
+    return d.get("style", "proc") == "class" or (bool(d.get("roles")) and d.get("rstyle", "names") in ("anon", "mul"))
+
+
+def finalize(d, ops):
+    """The members a definition has after the history `ops` (this harness's own reading, with Python dicts):
+    class body = a dict of the assignments, values that are no attributes forgotten; procedural = every addition in order,
+    a name re-used for the other kind leaves the old container, a value that is no attribute is refused."""
+    if eff_class(d):
+        body = {}
+        for o in ops:
+            body[o["n"]] = o
+        ops = list(body.values())
+    sigs, subs = {}, {}
+    for o in ops:
+        if o["t"] == "sig":
+            subs.pop(o["n"], None)
+            sigs[o["n"]] = o
+        elif o["t"] == "sub":
+            sigs.pop(o["n"], None)
+            subs[o["n"]] = o
+    strip = lambda o: {k: v for k, v in o.items() if k not in ("t", "via")}
+    return [strip(o) for o in sigs.values()], [strip(o) for o in subs.values()]
+
+
+def set_ops(d, ops):
+    d["ops"] = ops
+    d["sigs"], d["subs"] = finalize(d, ops)
+    return d
+
+
+def c_htree(defs, idx, inst):
+    d = defs[idx]
+    ops = []
+    for o in d["ops"]:
+        if o["t"] == "sig":
+            ops.append(f"(OSig {c_leaf(o)})")
+        elif o["t"] == "sub":
+            ops.append(f"(OSub {c_htree_or_plain(defs, o['d'], o)})")
+        else:
+            ops.append(f"(OJunk {cstr(o['n'])})")
+    return (f"(HT {cstr(inst['n'])} {cbool(bool(inst.get('cf')))} {int(inst.get('fc', 0))} {c_ostr(inst.get('role'))} "
+            f"{cbool(eff_class(d))} {clist(ops)})")
+
+
+def c_htree_or_plain(defs, idx, inst):
+    """a definition without a written history is the history `signals first, then sub-bundles, each once`"""
+    d = defs[idx]
+    if d.get("ops") is None:
+        d = dict(d, ops=[dict(l, t="sig") for l in d["sigs"]] + [dict(x, t="sub") for x in d["subs"]])
+        defs = list(defs)
+        defs[idx] = d
+    return c_htree(defs, idx, inst)
+
+
+HDUMMY = dict(n="d", cf=False, fc=0, role=None)
+
+
+def c_hist(case):
+    """(history tree, final tree) of every definition with a written history"""
+    defs = case["defs"]
+    return clist([f"({c_htree(defs, i, HDUMMY)}, {c_tree(defs, i, HDUMMY)})" for i, d in enumerate(defs) if d.get("ops") is not None])
 
 
 def c_path(p):
@@ -115,7 +184,7 @@ def c_case(case, out):
             conns = clist([f"({cstr(a)}, {cstr(b)})" for a, b in out["parent"]["conns"]])
             po = f"(Some ({c_obs(out['parent'], case.get('probe') and par['kind'] == 'inst')}, {conns}))"
         im = f"(IAcc {c_obs(out['child'], case.get('probe'))} {po})"
-    return f"({t}, {cbool(ch['port'])}, {clist([cstr(x) for x in ns])}, {cpar}, {im})"
+    return f"({c_hist(case)}, ({t}, {cbool(ch['port'])}, {clist([cstr(x) for x in ns])}, {cpar}, {im}))"
 
 
 # ------------------------------------------------------------------------------------------------ case helpers
@@ -182,6 +251,16 @@ def context_cases():
                                      sigs=leaves8("m", w, lvl), subs=[])
                             if lvl < depth - 1:
                                 d["subs"] = [dict(n="s", d=len(defs) - 1, role=roles[(ri + lvl + 1) % 4], **FLIPMECH[mech[lvl + 1]])]
+                            if k % 4 == 1:
+                                # every name had an earlier take: leaf m1 was a sub-bundle (when a deeper definition exists) or a
+                                # signal of another shape, m2 a value that is no attribute, the sub-bundle s a 5 bit output
+                                early = [dict(t="sub", n="m1", d=len(defs) - 1, cf=True, fc=0, role=None) if defs else
+                                         dict(t="sig", n="m1", w=5, k="inout", src=None, dest=None),
+                                         dict(t="junk", n="m2"), dict(t="sig", n="m6", w=2, k="in", src=None, dest=None)]
+                                if d["subs"]:
+                                    early.append(dict(t="sig", n="s", w=5, k="out", src=None, dest=None))
+                                via = VIAS[(k // 12 + lvl) % 3]
+                                set_ops(d, [dict(o, via=via) for o in early + [dict(l, t="sig") for l in d["sigs"]] + [dict(x, t="sub") for x in d["subs"]]])
                             defs.append(d)
                         child = dict(n="b", port=port, role=roles[ri], extra=[], **FLIPMECH[mech[0]])
                         case = dict(defs=defs, top=len(defs) - 1, child=child, probe=(k % 2 == 0), parent=None)
@@ -204,7 +283,7 @@ def gen_leaf(r, name):
     return dict(n=name, w=r.choice([1, 1, 2, 3, 5]), k=k, src=s, dest=d)
 
 
-def gen_def(r, defs, depth, fan, alphabet):
+def gen_def(r, defs, depth, fan, alphabet, hist=True):
     """Append a definition (and its sub-definitions) to defs; returns its index."""
     ns = r.randint(0 if depth > 1 else 1, fan)
     nb = r.randint(1 if ns == 0 else 0, fan) if depth > 1 else 0
@@ -213,16 +292,53 @@ def gen_def(r, defs, depth, fan, alphabet):
     for i in range(nb):
         if defs and r.random() < 0.2:
             cand = [j for j in range(len(defs)) if depth_of(defs, j) < depth]
-            di = r.choice(cand) if cand else gen_def(r, defs, depth - 1, fan, alphabet)
+            di = r.choice(cand) if cand else gen_def(r, defs, depth - 1, fan, alphabet, hist)
         else:
-            di = gen_def(r, defs, depth - 1, fan, alphabet)
+            di = gen_def(r, defs, depth - 1, fan, alphabet, hist)
         subs.append(dict(n=names[ns + i], d=di, cf=r.random() < 0.3, fc=r.choice([0, 0, 1, 1, 2]),
                          role=r.choice([None, None] + ROLES)))
     d = dict(name=f"D{len(defs)}", style=r.choice(["proc", "add", "class"]),
              rstyle=r.choice(["names", "enum", "roleset", "anon", "mul"]), rcap=r.random() < 0.5, roles=ROLES,
              sigs=[gen_leaf(r, names[i]) for i in range(ns)], subs=subs)
+    if hist and r.random() < 0.55:
+        gen_history(r, defs, d, depth, alphabet)
     defs.append(d)
     return len(defs) - 1
+
+
+VIAS = ["add", "addn", "set"]
+
+
+def gen_history(r, defs, d, depth, alphabet):
+    """Give definition d (not yet in defs) a construction history: its members added in a random order (signals and
+    sub-bundles interleaved), with 1-3 EARLIER TAKES inserted - the name of a member (mostly) or another name, first given to
+    a value of the other kind, of the same kind, or to a value that is no attribute - and per-addition spelling
+    (Bundle.add(name=), Bundle.add of a named value, attribute assignment; one class body for the class style)."""
+    final = [dict(l, t="sig") for l in d["sigs"]] + [dict(x, t="sub") for x in d["subs"]]
+    r.shuffle(final)
+    ops = list(final)
+    shallower = [j for j in range(len(defs)) if depth_of(defs, j) < depth]
+    for _ in range(r.choice([1, 1, 2, 3])):
+        tgt = r.choice(final) if r.random() < 0.85 else None
+        name = tgt["n"] if tgt is not None else r.choice(alphabet)
+        u = r.random()
+        if u < 0.45 and shallower:
+            early = dict(t="sub", n=name, d=r.choice(shallower), cf=r.random() < 0.3, fc=r.choice([0, 1]), role=r.choice([None] + ROLES))
+        elif u < 0.88:
+            early = dict(gen_leaf(r, name), t="sig")
+        else:
+            early = dict(t="junk", n=name)
+        hi = [i for i, o in enumerate(ops) if o is tgt][0] if tgt is not None else len(ops)
+        ops.insert(r.randint(0, hi), early)
+    if not eff_class(d):
+        for o in ops:
+            if r.random() < 0.4:
+                o["via"] = r.choice(VIAS)
+    old = (d["sigs"], d["subs"])
+    set_ops(d, ops)
+    if not d["sigs"] and not d["subs"]:
+        del d["ops"]
+        d["sigs"], d["subs"] = old
 
 
 def anon_shape(r, defs, idx, drop=None, path=(), allow_inst=True):
@@ -314,6 +430,99 @@ def small_tree_cases():
     return cases
 
 
+def history_cases(maxlen=3):
+    """Every history of 1..maxlen additions over the names p, q with the values {1 bit input, 2 bit output, instance of a
+    two-leaf bundle, a value that is no attribute}, in each construction style (Bundle.add(name=), Bundle.add of a named value,
+    attribute assignment, class body); the definition instantiated as a flipped port; every third case also instantiated by a
+    parent that connects a bundle instance of the same definition."""
+    leafdef = dict(name="Pn", style="proc", rstyle="names", roles=ROLES,
+                   sigs=[dict(n="x", w=1, k="in", src=None, dest=None), dict(n="y", w=3, k="out", src=None, dest=None)], subs=[])
+    vals = [lambda n: dict(t="sig", n=n, w=1, k="in", src=None, dest=None), lambda n: dict(t="sig", n=n, w=2, k="out", src=None, dest=None),
+            lambda n: dict(t="sub", n=n, d=0, cf=False, fc=0, role=None), lambda n: dict(t="junk", n=n)]
+    cases = []
+    k = 0
+    for ln in range(1, maxlen + 1):
+        for seq in itertools.product(itertools.product(("p", "q"), range(4)), repeat=ln):
+            for style in ("add", "addn", "set", "class"):
+                d = dict(name="H", style="class" if style == "class" else "proc", rstyle="names", roles=ROLES)
+                ops = [vals[v](n) for n, v in seq]
+                if style != "class":
+                    ops = [dict(o, via=style) for o in ops]
+                set_ops(d, ops)
+                case = dict(defs=[dict(leafdef), d], top=1, child=dict(n="b", port=True, cf=True, fc=0, role=None, extra=[]), probe=False, parent=None)
+                if k % 3 == 0 and (d["sigs"] or d["subs"]):
+                    case["parent"] = dict(kind="inst", n="x", port=False, cf=False, fc=0, role=None, extra=[], sibling=None)
+                cases.append(case)
+                k += 1
+    return cases
+
+
+def reachable_defs(case):
+    defs = case["defs"]
+    seen = set()
+
+    def go(i):
+        if i in seen:
+            return
+        seen.add(i)
+        for x in defs[i]["subs"]:
+            go(x["d"])
+    go(case["top"])
+    par = case.get("parent")
+    if par is not None and par.get("d") is not None:
+        go(par["d"])
+    return seen
+
+
+HIST_TARGETS = ([f"{a}->{b}:{v}" for v in ("add", "addn", "set", "class") for a, b in (("sig", "sub"), ("sub", "sig"), ("sig", "sig"), ("sub", "sub"))]
+                + ["junk-refused:add", "junk-refused:set", "junk-over-member:class", "member-over-junk:class", "interleaved-kinds"])
+
+
+def history_events(case):
+    """Re-use events of the definitions whose members are observed (reachable from the instance under test through FINAL
+    members): `<kind before> -> <kind now> : <spelling of the later addition>`."""
+    ev = []
+    for i in sorted(reachable_defs(case)):
+        d = case["defs"][i]
+        if d.get("ops") is None:
+            continue
+        cls = eff_class(d)
+        held = {}
+        kinds = []
+        for o in d["ops"]:
+            via = "class" if cls else (o.get("via") or ("add" if d.get("style") == "add" else "set"))
+            prev = held.get(o["n"])
+            if o["t"] == "junk":
+                if not cls:
+                    ev.append("junk-refused:" + ("set" if via == "set" else "add"))
+                    continue
+                if prev in ("sig", "sub"):
+                    ev.append("junk-over-member:class")
+            else:
+                kinds.append(o["t"])
+                if prev == "junk":
+                    ev.append("member-over-junk:class")
+                elif prev is not None:
+                    ev.append(f"{prev}->{o['t']}:{via}")
+            held[o["n"]] = o["t"]
+        if any(a == "sub" and b == "sig" for a, b in zip(kinds, kinds[1:])):
+            ev.append("interleaved-kinds")
+    return ev
+
+
+def history_stats(cases, outs):
+    cnt = {t: 0 for t in HIST_TARGETS}
+    with_hist = 0
+    for c, o in zip(cases, outs):
+        if o["err"] is not None:
+            continue
+        ev = history_events(c)
+        with_hist += bool(ev)
+        for e in set(ev):
+            cnt[e] = cnt.get(e, 0) + 1
+    return with_hist, cnt
+
+
 def corpus():
     base = dict(name="Base", style="class", roles=[], sigs=[dict(n="i", w=1, k="in"), dict(n="o", w=1, k="out")], subs=[])
     nested = dict(name="Nested", style="class", roles=[], sigs=[dict(n="ni", w=1, k="in"), dict(n="no", w=1, k="out")],
@@ -325,7 +534,19 @@ def corpus():
     b4 = dict(name="B", style="class", roles=[], sigs=[dict(n="i", w=1, k="in"), dict(n="o", w=2, k="out"), dict(n="io", w=1, k="inout"), dict(n="p", w=1, k="none")], subs=[])
     coll = dict(name="Coll", style="proc", roles=[], sigs=[dict(n="a_i", w=2, k="in"), dict(n="i", w=3, k="out")],
                 subs=[dict(n="a", d=0, cf=True, fc=0, role=None)])
+    pn = dict(name="Pn", style="add", roles=[], sigs=[dict(n="p", w=1, k="out"), dict(n="n", w=1, k="out")], subs=[])
+    bus = set_ops(dict(name="Bus", style="add", roles=[]),
+                  [dict(t="sig", via="addn", n="clk", w=1, k="in"), dict(t="sig", via="addn", n="d", w=4, k="out"),
+                   dict(t="sub", via="addn", n="d", d=0, cf=False, fc=0, role=None)])
+    sub = set_ops(dict(name="Sub", style="proc", roles=[]),
+                  [dict(t="sub", via="add", n="d", d=0, cf=False, fc=1, role=None), dict(t="sig", via="add", n="clk", w=1, k="in"),
+                   dict(t="sig", via="add", n="d", w=4, k="out")])
     return [
+        # S1 (seeded change C10r4-C): member d, first a 4 bit bus, re-added with Bundle.add as a differential sub-bundle
+        dict(defs=[pn, bus], top=1, child=dict(n="bus", port=True, cf=True, fc=0, role=None, extra=[]), probe=False,
+             parent=dict(kind="inst", n="bus", port=False, cf=False, fc=0, role=None, extra=[], sibling=None)),
+        # S2: the reverse - a sub-bundle re-added as a signal
+        dict(defs=[pn, sub], top=1, child=dict(n="b", port=True, cf=False, fc=0, role=None, extra=[]), probe=True, parent=None),
         # W1 (pinned tree): anonymous roles h.Roles(2) all compare equal -> tx of a Device-roled port exported as OUTPUT
         dict(defs=[rb], top=0, child=dict(n="b", port=True, cf=False, fc=0, role="Device", extra=[]), probe=False, parent=None),
         # W2 (pinned tree): a flipped copy shares _connected_ports with the original -> the child is wired to the copy
@@ -352,13 +573,15 @@ def corpus():
 def evaluate(run, stream, cases, chunk=60):
     outs = core.run_worker_sharded("c10", cases)
     strs = [c_case(c, o) for c, o in zip(cases, outs)]
-    bad = core.coq_eval_cases("C10", stream, IMPORTS, "case", strs, "run_cases chk", chunk=chunk)
+    bad = core.coq_eval_cases("C10", stream, IMPORTS, "hcase", strs, "run_cases chkh", chunk=chunk)
     return outs, bad
 
 
 def category(case, out):
     """Coarse class of a failing case, so that one stream reports the smallest case of EACH kind of failure."""
     par = case.get("parent")
+    if any("->" in e or "junk" in e for e in history_events(case)):
+        return "re-used-name"
     if par is not None and par.get("sibling"):
         return "copied-instance"
     if out["err"] is not None:
@@ -389,9 +612,26 @@ def report(run, stream, bad, cases, outs):
     return len(v1), len(v2)
 
 
+def coverage_check(run, stream, cnt, wanted):
+    """fail closed: a declared re-use class that no accepted case of the stream exercised is reported"""
+    missed = [t for t in wanted if cnt.get(t, 0) == 0]
+    if missed:
+        run.violation(f"C10:coverage:{stream}:" + ",".join(missed),
+                      f"coverage target missed in stream {stream}: no accepted case whose observed definition has the re-use class(es) {missed} (fail closed)",
+                      dict(kind="coverage-target-missed", stream=stream, missed=missed, counts=cnt), found_input=False)
+
+
+CORE_TARGETS = [f"{a}->{b}:{v}" for v in ("add", "addn", "set", "class") for a, b in (("sig", "sub"), ("sub", "sig"), ("sig", "sig"))] + \
+               ["junk-refused:add", "junk-refused:set", "junk-over-member:class", "interleaved-kinds"]
+
+
 def stats(cases, outs):
     n = len(cases)
+    with_hist, cnt = history_stats(cases, outs)
     return dict(
+        defs_with_history=sum(1 for c in cases for d in c["defs"] if d.get("ops") is not None),
+        accepted_cases_with_reuse_in_an_observed_definition=with_hist,
+        reuse_classes=cnt,
         rejected=sum(1 for o in outs if o["err"] is not None),
         port=sum(1 for c in cases if c["child"]["port"]),
         internal=sum(1 for c in cases if not c["child"]["port"]),
@@ -435,6 +675,18 @@ def run(run, tier, seed, replay=None):
     report(run, "contexts", bad, cases, outs)
     run.sample(dict(stream="contexts", case=cases[len(cases) // 2], impl=outs[len(cases) // 2]))
     total += len(cases)
+    # ---------------------------------------------------------------- every short construction history (exhaustive)
+    cases = history_cases(3 if quick else 4)
+    outs, bad = evaluate(run, "histories", cases, chunk=150)
+    st = stats(cases, outs)
+    run.stream("construction-histories", len(cases), len({json.dumps(c, sort_keys=True) for c in cases if history_events(c)}), exhaustive=True,
+               box=f"every sequence of 1..{3 if quick else 4} additions over 2 names x 4 values (1 bit input, 2 bit output, instance of a two-leaf bundle, "
+                   "a value that is no attribute) x 4 construction styles (Bundle.add(name=), Bundle.add of a named value, attribute assignment, class body)",
+               rule="non-trivial = the observed definition has a re-used name, a refused/forgotten value or interleaved kinds; distinct by case", **st)
+    report(run, "histories", bad, cases, outs)
+    coverage_check(run, "histories", st["reuse_classes"], HIST_TARGETS)
+    run.sample(dict(stream="histories", case=cases[len(cases) // 2], impl=outs[len(cases) // 2]))
+    total += len(cases)
     # ---------------------------------------------------------------- whole small trees (thorough)
     if not quick:
         cases = small_tree_cases()
@@ -448,9 +700,11 @@ def run(run, tier, seed, replay=None):
     n = 700 if quick else 20000
     cases = [gen_case(core.rng(seed, "C10", "random", k)) for k in range(n)]
     outs, bad = evaluate(run, "random", cases)
+    st = stats(cases, outs)
     run.stream("random-trees", len(cases), len({json.dumps(c, sort_keys=True) for c in cases if nontrivial(c)}),
-               rule="non-trivial = >= 2 leaves and (a flip, a role, a nested bundle or a connection); distinct by case", **stats(cases, outs))
+               rule="non-trivial = >= 2 leaves and (a flip, a role, a nested bundle or a connection); distinct by case", **st)
     report(run, "random", bad, cases, outs)
+    coverage_check(run, "random", st["reuse_classes"], CORE_TARGETS)
     run.sample(dict(stream="random", case=cases[-1], impl=outs[-1]))
     total += len(cases)
     # ---------------------------------------------------------------- malformed: a member missing on the parent side
